@@ -501,7 +501,7 @@ func cellStoresBefore(ret *ssa.Return) []ssa.Value {
 // C07.count
 
 func ruleSnapshotCount(r *Report) {
-	h := r.Rule("C07.count", "S", "the number of buffers announced per block equals the number written: the column count and the skip in column.Snapshot use the same predicate (IsIndex), writeState writes one buffer for the insert markers plus one per non-skipped registry entry, readState reads that many per block", 3)
+	h := r.Rule("C07.count", "S", "the number of buffers announced per block equals the number written: the column count and the skip in column.Snapshot use the same predicate (IsIndex), writeState writes one buffer for the insert markers plus one per non-skipped registry entry, readState reads that many per block", 5)
 	cnt := r.Anchor("(*column.columns).Count")
 	snap := r.Anchor("(*column.column).Snapshot")
 	if cnt != nil && snap != nil {
@@ -573,6 +573,40 @@ func ruleSnapshotCount(r *Report) {
 			}
 		}
 		h.Check(named, "(*column.column).Snapshot/name", r.P.Pos(snap.Pos()), "buffer reset to the column's name", "the snapshot buffer is not named after the column: restore applies it to the wrong column or drops it")
+	}
+	// the number of blocks written is the extent of the fill list, not the row count
+	if ch := r.Anchor("(*column.Collection).chunks"); ch != nil {
+		ok := true
+		n := 0
+		for _, ret := range returnsOf(ch) {
+			for _, v := range cellStoresBefore(ret) {
+				if z, isC := constInt(v); isC && z == 0 {
+					continue
+				}
+				n++
+				if !dependsOn(v, func(x ssa.Value) bool {
+					c, isCall := x.(*ssa.Call)
+					if !isCall || !methodOn(&c.Call, "github.com/kelindar/bitmap", "Bitmap", "Max") {
+						return false
+					}
+					fr, isF := loadedField(c.Call.Args[0])
+					return isF && fr.Struct == "column.Collection" && fr.Field == "fill"
+				}, 8) {
+					ok = false
+				}
+			}
+		}
+		h.Check(ok && n >= 1, "(*column.Collection).chunks/extent", r.P.Pos(ch.Pos()), "block count = block of the highest live offset + 1", "the number of blocks (written to a snapshot, back-filled into a new index) is not derived from the highest set bit of the fill list: in a sparse collection rows live in blocks beyond count/16384 and are left out")
+		if ws := r.P.Fn("(*column.Collection).writeState"); ws != nil {
+			used := false
+			for _, c := range callsTo(ws, false, "(*iostream.Writer).WriteRange") {
+				cc, _, _ := callCommon(c)
+				if cl, isC := norm(cc.Args[1]).(*ssa.Call); isC && calleeIs(&cl.Call, "(*column.Collection).chunks") {
+					used = true
+				}
+			}
+			h.Check(used, "(*column.Collection).writeState/blocks", r.P.Pos(ws.Pos()), "writes chunks() blocks", "writeState does not write one state per block up to chunks()")
+		}
 	}
 	if ws := r.Anchor("(*column.Collection).writeState"); ws != nil {
 		// columns := Count()+1
